@@ -710,6 +710,12 @@ def eam_model(draw, kind="eam", n_min=1, n_max=4, depth=1, pycallables=False, ma
             for b in draw(st.permutations(els)):
                 if draw(st.integers(0, 5)) > 0:          # ~1/6 left undeclared
                     dens.append([a, b, pot()])
+        # the two directions of a pair are often written as near-copies of each other (same forms and numbers with a
+        # pair-specific cut-off, one more range, ...): each keeps its own definition
+        for ent in dens:
+            rev = [x for x in dens if (x[0], x[1]) == (ent[1], ent[0])]
+            if ent[0] != ent[1] and rev and draw(st.integers(0, 3)) == 0:
+                rev[0][2] = vary(draw, ent[2], body0)
         missing = [a for a, d in zip(els, drop) if d == "embed" and not any(a in (x[0], x[1]) for x in dens)]
         for a in missing:
             dens.append([a, a, pot()])
